@@ -22,7 +22,7 @@ const CONTENT: &[u8] = b"aligned entry payload \x00\x01\x02\xff";
 const PRE_NAME: &str = "p";
 
 /// Header IDs of APPNOTE 6.3.9 sections 4.5.2 and 4.6.1 (the oracle's own copy).
-const RESERVED: [u16; 49] = [
+pub const RESERVED: [u16; 49] = [
     0x0001, 0x0007, 0x0008, 0x0009, 0x000a, 0x000c, 0x000d, 0x000e, 0x000f, 0x0014, 0x0015, 0x0016, 0x0017,
     0x0018, 0x0019, 0x0020, 0x0021, 0x0022, 0x0023, 0x0065, 0x0066, 0x4690, 0x07c8, 0x2605, 0x2705, 0x2805,
     0x334d, 0x4341, 0x4453, 0x4704, 0x470f, 0x4b46, 0x4c41, 0x4d49, 0x4f4c, 0x5356, 0x5455, 0x554e, 0x5855,
